@@ -194,7 +194,7 @@ pub fn run(ctx: &Ctx) -> i32 {
             level: None,
             block_size: None,
             interval: None,
-            levels: None,
+            levels: None, order: rng.next_u64(),
         };
         let t = scfg.effective_budget();
         let total = if big { rng.range(50, 300) * 1024 * 1024 } else { rng.range(35, 70) * 1024 * 1024 };
